@@ -103,6 +103,16 @@ def real_cases(ctx, rng, nkeys, nflip):
             outcome(lambda: 3 * pk.point)
             outcome(lambda: 3 * pk.point.even_point())
             outcome(pk.point.verify_schnorr, bytes(40), pecc.SchnorrSignature.parse(bytes(31) + b"\x01" + bytes(31) + b"\x01"))
+        if i % 3 != 0:
+            # the aux bytes, the message and the public key have been through the library's OTHER tagged hashes before (as when a
+            # taproot address was derived from them): every one-argument hash_* helper of buidl.hash is asked about them first
+            import buidl.hash as BH
+            for nm in sorted(dir(BH)):
+                fn_ = getattr(BH, nm)
+                if nm.startswith("hash_") and callable(fn_):
+                    for x_ in (aux, m, pk.point.xonly(), aux + m):
+                        outcome(fn_, x_)
+            outcome(lambda: pk.point.p2tr_address())
         if i % 2 == 0:
             # history independence: an earlier signature of the same message with ANOTHER aux on the same object comes first
             outcome(pk.sign_schnorr, m, bytes(32) if aux != bytes(32) else b"\x01" * 32)
